@@ -39,8 +39,10 @@ func init() {
 	wrap("C03", c03R10, "R10 (added, F-C03-2): wherever the resolver replaces a reply's additional section by one built around another message's OPT (the request's, whose ECS option always says SCOPE 0), the OPT it stores depends on the reply's own EDNS Client Subnet option, read before the section is discarded — otherwise every subnet-tailored answer reaches the cache as 'valid for everybody'.")
 }
 
-func c03R10(c *Ctx) {
-	const R = "C03-R10"
+func c03R10(c *Ctx) { c03R10as(c, "C03-R10") }
+
+// c03R10as runs the rule under the given rule id (the clause is claimed by two properties).
+func c03R10as(c *Ctx, R string) {
 	const pkg = "middleware/resolver"
 	c.Doc(R, "in package middleware/resolver, every store into M.Extra of a value containing another message's OPT record (R.IsEdns0(), R ≠ M, M not a fresh allocation) stores a value that depends on M's own EDNS Client Subnet option (a *dns.EDNS0_SUBNET type assertion over M.IsEdns0().Option / M.Extra — directly, via a same-package helper or closure handed M, or via a parameter every caller feeds from such a read), and no such read of M is reachable after a store to M.Extra: the request's own ECS option says SCOPE 0, so re-attaching the request OPT alone turns an answer the authority scoped to one subnet into one the cache files under the shared key")
 	extraF := c.field(R, "github.com/miekg/dns.Msg.Extra")
